@@ -19,7 +19,7 @@ RULE = (
     "or equal to the qubit count, 1-/2-qubit confusion maps, qudits), resets and classically controlled gates "
     "(KeyCondition with index, SympyCondition ==, >, indexed bits, xor; BitMaskKeyCondition), a simulator (state-vector / "
     "density-matrix, split on/off, Clifford simulator / StabilizerSampler on the Clifford sub-grammar), an entry point (run, "
-    "simulate, sample, run_sweep) and repetitions in {1,2}. The simulator is driven by a ScriptedPRNG passed as `seed`, "
+    "simulate, sample, run_sweep) and repetitions in {0,1,2,3}. The simulator is driven by a ScriptedPRNG passed as `seed`, "
     "every outcome branch is enumerated and its exact probability is the product of the logged probability vectors; the "
     "resulting table records->probability (and per-branch final state) must equal the table of the independent numpy "
     "interpreter. Non-trivial: >=2 branches with probability in (0.01,0.99) and at least one of: classical control whose "
@@ -79,7 +79,7 @@ def _case(draw, sims=SIMS, **kw):
             r["ops"].append({"k": "m", "key": "zfin", "w": fin, "inv": [], "conf": None})
     r["sim"] = draw(st.sampled_from(sims))
     r["entry"] = draw(st.sampled_from(["run", "run", "simulate", "sample", "run_sweep"]))
-    r["reps"] = draw(st.sampled_from([1, 1, 1, 2]))
+    r["reps"] = draw(st.sampled_from([1, 1, 1, 1, 1, 1, 2, 2, 3, 0]))
     est = 1
     for o in r["ops"]:
         if o["k"] == "m":
@@ -89,8 +89,10 @@ def _case(draw, sims=SIMS, **kw):
                 est *= 2 ** len(o["conf"][0])
         elif o["k"] == "pm":
             est *= 2
-    if est > 24:
+    if est > 24 and r["reps"] > 1:
         r["reps"] = 1  # two repetitions square the number of outcome branches
+    if est > 6 and r["reps"] > 2:
+        r["reps"] = 2
     r["est_branches"] = est
     n = len(r["dims"])
     r["order"] = list(draw(st.permutations(list(range(n)))))
@@ -173,7 +175,7 @@ def oracle_distribution(r):
         raise KeyError(entry)
 
     try:
-        branches = enumerate_branches(run, max_branches=800, branch_vectors=2)
+        branches = enumerate_branches(run, max_branches=800, branch_vectors=3)
     except OverflowError:
         raise Reject("too many branches")
     tot = sum(p for p, *_ in branches)
